@@ -22,6 +22,17 @@ THMS = ["USProofs.C14.sr_neighbour", "USProofs.C14.sr_fixes_representable", "USP
         "USProofs.C14.sr_prob_exact", "USProofs.C14.sr_prob_half_ulp"]
 
 
+def _release_memory() -> None:
+    """large temporaries are freed per (format, srbits); ask glibc to hand the pages back"""
+    import ctypes
+    import gc
+    gc.collect()
+    try:
+        ctypes.CDLL("libc.so.6").malloc_trim(0)
+    except Exception:
+        pass
+
+
 def run(ctx: Ctx) -> None:
     import_repo()
     import numpy as np
@@ -168,7 +179,8 @@ def run(ctx: Ctx) -> None:
                     colcounts[i] = dict(zip(vals_.tolist(), cnts_.tolist()))
             jobs.append((E, M, sb, xb, R, n, {r: yb[r].copy() for r in rs_keep}, colcounts, cnt))
             del yb, yv, ay, ok_neigh, moved, x, y
-    ctx._distinct.update(range(distinct))
+            _release_memory()
+    ctx.distinct_extra += distinct
     ctx.samples = [{"E": 4, "M": 3, "srbits": 5, "x_bits": 0x3FA66666, "draws": "all 32"}]
 
     # ---- correspondence: identical bit patterns per (x, r); counts vs the model's count
